@@ -1,6 +1,6 @@
 (* C18 — the search step evaluates the acquisition-optimal candidate, once.
    Only statements here; every proof is in Proofs/ESSelectProofs.v.  Model: Model/ESSelect.v
-   (es_search.py l.44-69 and l.134-210, search_hedge.py l.58-67, bads.py l.1630-1655).
+   (es_search.py l.44-69 and l.134-214, search_hedge.py l.58-67, bads.py l.1630-1655).
    Oracle inputs, universally quantified: the survivors of every generation with their acquisition
    values (any number of generations, any population sizes), the ceil'ed weight vector w0, the
    positive numbers e_i = exp(beta (g_i - max g)) of any score history, the uniform draw. *)
@@ -12,23 +12,45 @@ Open Scope Z_scope.
 (* The evolution strategy returns a lowest-acquisition survivor.  [gens] = the filtered population of
    each pass of the loop with its LCB values; the code accumulates ALL of them, ranks, returns the head.
    Premise: every generation has at least one survivor.  (The weaker premise "the accumulated list is
-   non-empty" is NOT enough in the code as it is — see C18_es_stuck_cases below.) *)
+   non-empty" is NOT enough in the code as it is — see C18_es_later_empty_generation below.) *)
 Theorem C18_es_returns_min :
   forall (row : Type) (lamb : nat) (gens : list (list (row * Q))),
     (1 <= lamb)%nat -> gens <> [] -> Forall (fun g => g <> []) gens ->
     exists (u : row) (z : Q),
-      es_run row lamb gens = Some (u, z) /\
+      es_run row lamb gens = ESPoint u z /\
       In (u, z) (List.concat gens) /\
       forall c : row * Q, In c (List.concat gens) -> (z <= snd c)%Q.
 Proof. exact es_returns_min. Qed.
 Print Assumptions C18_es_returns_min.
 
-(* With no premise at all: a returned point is never invented, it is one of the accumulated survivors. *)
+(* With no premise at all: a returned point is never invented, it is one of the accumulated survivors,
+   and `z[0]` is never out of range once `us` is non-empty. *)
 Theorem C18_es_result_is_survivor :
-  forall (row : Type) (lamb : nat) (gens : list (list (row * Q))) (u : row) (z : Q),
-    es_run row lamb gens = Some (u, z) -> In u (map fst (List.concat gens)).
-Proof. exact es_result_is_survivor. Qed.
+  forall (row : Type) (lamb : nat) (gens : list (list (row * Q))),
+    es_run row lamb gens <> ESStuck /\
+    forall (u : row) (z : Q), es_run row lamb gens = ESPoint u z -> In u (map fst (List.concat gens)).
+Proof. exact es_result_sound. Qed.
 Print Assumptions C18_es_result_is_survivor.
+
+(* All candidates of every generation filtered out (populations shrunk to zero): the strategy returns the
+   empty search set (repo commit 692d1d7; before it `us[0]` raised IndexError), the filter can only
+   select from it, and the search step then evaluates nothing — a failed search. *)
+Theorem C18_es_all_filtered_is_failed_search :
+  forall (row : Type) (lamb : nat) (gens : list (list (row * Q))),
+    Forall (fun g => g = []) gens ->
+    es_run row lamb gens = ESEmpty /\ forall z : list Q, search_trace row [] z = [].
+Proof. exact es_all_filtered_failed_search. Qed.
+Print Assumptions C18_es_all_filtered_is_failed_search.
+
+(* Observation (not gated on): a LATER generation without survivors makes the strategy return the empty
+   set although earlier generations had survivors with known acquisition values — es_search.py l.166
+   `z_candidates = np.random.rand(u_new.shape[0])` wipes the accumulated values (it was meant to
+   replace z_new), argsort of the now empty array selects nothing. *)
+Theorem C18_es_later_empty_generation :
+  List.concat [[(1%nat, 3#1); (2%nat, 1#1)]; @nil (nat * Q)] <> [] /\
+  es_run nat 2 [[(1%nat, 3#1); (2%nat, 1#1)]; []] = ESEmpty.
+Proof. exact es_example_later_generation_empty. Qed.
+Print Assumptions C18_es_later_empty_generation.
 
 (* Every survivor lies in the mesh-rounded box: contraints_check(proj=True) clamps each candidate to
    [lb_search, ub_search] and afterwards only selects rows. *)
@@ -40,17 +62,6 @@ Theorem C18_survivors_in_box :
     forall s, In s survivors -> in_box s lb ub.
 Proof. exact survivors_in_box. Qed.
 Print Assumptions C18_survivors_in_box.
-
-(* Stuck cases of `return us[0], z[0]` (IndexError; the crash itself is C09's concern):
-   (1) the first generation has no survivor; (2) a LATER generation has no survivor although earlier
-   ones had — l.166 `z_candidates = np.random.rand(u_new.shape[0])` then wipes the accumulated
-   acquisition values, argsort of the empty array selects nothing, and `us` becomes empty. *)
-Theorem C18_es_stuck_cases :
-  es_run nat 2 [[]; []] = None /\
-  (List.concat [[(1%nat, 3#1); (2%nat, 1#1)]; @nil (nat * Q)] <> [] /\
-   es_run nat 2 [[(1%nat, 3#1); (2%nat, 1#1)]; []] = None).
-Proof. exact (conj es_example_first_generation_empty es_example_later_generation_empty). Qed.
-Print Assumptions C18_es_stuck_cases.
 
 (* The search step evaluates set[argmin z] (first minimum) of the filtered search set; the
    `isfinite(index_acq)` fallback is dead for a non-empty set. *)
@@ -137,8 +148,11 @@ Print Assumptions C18_hedge_distribution.
 
 (* Non-vacuity on concrete states; the second conjunct of C18_hedge_gap is the stuck choice. *)
 Example C18_es_example :
-  es_run nat 2 [[(1%nat, 3#1); (2%nat, 1#1); (3%nat, 5#2)]; [(4%nat, 2#1); (5%nat, 1#2)]] = Some (5%nat, 1#2)%Q.
+  es_run nat 2 [[(1%nat, 3#1); (2%nat, 1#1); (3%nat, 5#2)]; [(4%nat, 2#1); (5%nat, 1#2)]] = ESPoint 5%nat (1#2)%Q.
 Proof. exact es_example_ok. Qed.
+
+Example C18_es_example_all_filtered : es_run nat 2 [[]; []] = ESEmpty.
+Proof. exact es_example_all_filtered. Qed.
 
 Example C18_mask_example :
   selection_mask [2; 1; 1; 1; 1; 1; 1; 1] 5 = MOk [0; 1; 1; 2; 3; 4] /\
